@@ -729,6 +729,112 @@ theorem model_holds_head [Zero α] [DecidableEq α] (t : Table α) (hwf : t.WF) 
     have b := blockSpec_trans t _ _ _ _ _ b1 b2 (fun s hs => List.mem_of_mem_take hs)
     exact blockVerdict_none t _ _ _ b _ _ _ _ _ _ _ _ (eqb_self _)
 
+/-! ## Error profile `empty='raise'` -/
+
+theorem tableFilter_valid [Zero α] [DecidableEq α] (t : Table α) (hwf : t.WF) (ax : Axis) (hn : (t.ids ax).Nodup)
+    (layout : CS α) (hl : LayoutOf t ax layout) (keep : Keep α) (invert : Bool) (hv : validKeep t ax keep = true) :
+    ∃ r calls, tableFilter t layout ax keep invert = .ok (r, calls) ∧
+      r.ids ax = keptIds t ax keep invert ∧ r.ids ax.other = t.ids ax.other := by
+  cases keep with
+  | ids l =>
+    simp only [validKeep] at hv
+    refine ⟨_, _, by rw [filter_ids_path t hwf ax hn layout hl, if_pos hv], ?_, filterAxis_other_ids t _ ax⟩
+    rw [filterAxis_ids, filterMask_map_self]; rfl
+  | pred p =>
+    refine ⟨_, _, filter_pred_path t hwf ax hn layout hl p invert, ?_, filterAxis_other_ids t _ ax⟩
+    rw [filterAxis_ids, filterMask_map_self, keptIds_pred t hwf ax hn layout hl]
+  | other => simp [validKeep] at hv
+
+theorem tableFilter_invalid [Zero α] (t : Table α) (hwf : t.WF) (ax : Axis) (hn : (t.ids ax).Nodup)
+    (layout : CS α) (hl : LayoutOf t ax layout) (keep : Keep α) (invert : Bool) (hv : validKeep t ax keep = false) :
+    ∃ e, tableFilter t layout ax keep invert = .error e := by
+  cases keep with
+  | ids l =>
+    simp only [validKeep] at hv
+    exact ⟨.key, by rw [filter_ids_path t hwf ax hn layout hl, if_neg (by rw [hv]; exact Bool.false_ne_true)]⟩
+  | pred p => simp [validKeep] at hv
+  | other => exact ⟨.type, rfl⟩
+
+theorem isEmptyTable_axis (r : Table α) (ax : Axis) :
+    isEmptyTable r = ((r.ids ax).isEmpty || (r.ids ax.other).isEmpty) := by
+  cases ax <;> simp [isEmptyTable, Table.ids, Axis.other, Bool.or_comm]
+
+/-- the profile only decides whether the call raises: the receiver ends up the same, and without the
+profile `filterCallP` is `filterCall` -/
+theorem filterCallP_after [Zero α] (emptyRaise : Bool) (t : Table α) (layout : CS α) (ax : Axis) (keep : Keep α)
+    (invert inplace : Bool) :
+    (filterCallP emptyRaise t layout ax keep invert inplace).after = (filterCall t layout ax keep invert inplace).after ∧
+    filterCallP false t layout ax keep invert inplace = filterCall t layout ax keep invert inplace := by
+  unfold filterCallP
+  generalize filterCall t layout ax keep invert inplace = o
+  obtain ⟨res, aft, cl⟩ := o
+  constructor
+  · cases res with
+    | error e => rfl
+    | ok r => simp only; split <;> rfl
+  · cases res <;> simp
+
+/-- **model_holds_under_profile**: with or without `empty='raise'` in force, the declarative predicate is
+true of the model's observation — an emptying request raises `TableException`, a copying call leaves the
+receiver alone, an in-place call leaves the (empty) specified result behind -/
+theorem model_holds_under_profile [Zero α] [DecidableEq α] (emptyRaise : Bool) (t : Table α) (hwf : t.WF)
+    (ax : Axis) (hn : (t.ids ax).Nodup) (layout : CS α) (hl : LayoutOf t ax layout) (keep : Keep α)
+    (invert inplace : Bool) :
+    verdictFilterP emptyRaise t ax keep invert inplace
+      { modelFilterObs t layout ax keep invert inplace with
+        result := (filterCallP emptyRaise t layout ax keep invert inplace).result } = none := by
+  have hbase : ∀ ip, verdictFilter t ax keep invert ip (modelFilterObs t layout ax keep invert ip) = none := by
+    intro ip
+    have := model_holds t hwf ax hn layout hl keep invert ip
+    unfold holdsFilter at this
+    exact Option.isNone_iff_eq_none.mp this
+  cases hv : validKeep t ax keep with
+  | false =>
+    obtain ⟨e, he⟩ := tableFilter_invalid t hwf ax hn layout hl keep invert hv
+    have hP : (filterCallP emptyRaise t layout ax keep invert inplace).result =
+        (modelFilterObs t layout ax keep invert inplace).result := by
+      simp [filterCallP, modelFilterObs, filterCall, he]
+    rw [hP]
+    simp only [verdictFilterP, hv, Bool.and_false, Bool.false_and, Bool.false_eq_true, if_false]
+    exact hbase inplace
+  | true =>
+    obtain ⟨r, calls, hr, hids, hother⟩ := tableFilter_valid t hwf ax hn layout hl keep invert hv
+    have hempty : isEmptyTable r = ((keptIds t ax keep invert).isEmpty || (t.ids ax.other).isEmpty) := by
+      rw [isEmptyTable_axis r ax, hids, hother]
+    cases hc : emptyRaise && ((keptIds t ax keep invert).isEmpty || (t.ids ax.other).isEmpty) with
+    | false =>
+      have hP : (filterCallP emptyRaise t layout ax keep invert inplace).result =
+          (modelFilterObs t layout ax keep invert inplace).result := by
+        simp only [filterCallP, modelFilterObs, filterCall, hr]
+        rw [hempty, hc]; rfl
+      rw [hP]
+      have hcond : (emptyRaise && validKeep t ax keep &&
+          ((keptIds t ax keep invert).isEmpty || (t.ids ax.other).isEmpty)) = false := by
+        rw [hv, Bool.and_true]; exact hc
+      simp only [verdictFilterP, hcond, Bool.false_eq_true, if_false]
+      exact hbase inplace
+    | true =>
+      have hP : (filterCallP emptyRaise t layout ax keep invert inplace).result = .error .tableException := by
+        simp only [filterCallP, filterCall, hr]
+        rw [hempty, hc]; rfl
+      have hcond : (emptyRaise && validKeep t ax keep &&
+          ((keptIds t ax keep invert).isEmpty || (t.ids ax.other).isEmpty)) = true := by
+        rw [hv, Bool.and_true]; exact hc
+      rw [hP]
+      simp only [verdictFilterP, hcond, if_true]
+      apply allV_nil_of_all_none
+      intro v hvm
+      simp only [List.mem_cons, List.not_mem_nil, or_false] at hvm
+      rcases hvm with rfl | rfl
+      · simp only [errOf, eqb_self]; rfl
+      · cases inplace with
+        | false =>
+          simp only [Bool.false_eq_true, if_false, modelFilterObs, filterCall, hr, eqb_self]; rfl
+        | true =>
+          have := hbase true
+          simp only [modelFilterObs, filterCall, hr, if_true] at this ⊢
+          exact this
+
 /-! ## The table's own by-ID lookups -/
 
 theorem map_indexOf?_self (ids : List Id) (hn : ids.Nodup) :
